@@ -1,7 +1,7 @@
 """C04 - correlation estimators and the n(z) formula are applied as documented.
 
 Engine E1: every non-empty subset of {dr, rd, rr} x auto/cross x count contents x
-binning x which autocorrelations are passed to the redshift estimate. The reference
+binning x which autocorrelations (of either sign) are passed to the redshift estimate. The reference
 is typed from the property text (vlib.ref.ref_norm_term / ref_estimator).
 """
 
@@ -42,9 +42,11 @@ def cases(tier, seed):
             for closed in (("right", "left") if tier == "thorough" else ("right",)):
                 out.append(dict(part="estimator", B=B, N=N, auto=auto, members=list(members),
                                 content=content, kind=kind, closed=closed))
-    for B, kind, content, autos in itertools.product(
-            (1, 2, 3), ("uneq", "eq"), ("pos", "fp"), ("none", "ref", "unk", "both")):
-        out.append(dict(part="nz", B=B, N=3, kind=kind, content=content, autos=autos))
+    for B, kind, content, autos, signs in itertools.product(
+            (1, 2, 3), ("uneq", "eq"), ("pos", "fp"), ("none", "ref", "unk", "both"), ("++", "--", "+-")):
+        if autos == "none" and signs != "++":
+            continue
+        out.append(dict(part="nz", B=B, N=3, kind=kind, content=content, autos=autos, signs=signs))
     for B, kind in itertools.product((1, 2, 3), ("uneq", "eq")):
         for vals in itertools.product((0.0, 1.0, 2.5, float("nan")), repeat=B):
             if not any(v > 0 for v in vals):
@@ -63,7 +65,7 @@ def make_cf(B, N, auto, members, content, kind="uneq", closed="right", salt=0):
 
     offs = dict(dd=(0, 7), dr=(0, 17), rd=(11, 7), rr=(11, 17))
     amp = dict(fp=dict(dd=1, dr=2, rd=3, rr=4), pos=dict(dd=9, dr=2, rd=3, rr=1),
-               sparse=dict(dd=5, dr=2, rd=3, rr=1))
+               sparse=dict(dd=5, dr=2, rd=3, rr=1), negamp=dict(dd=0.01, dr=60, rd=60, rr=20))
     amp["zero-rr"] = amp["pos"]
     kw = {}
     for m in ("dd",) + tuple(members):
@@ -157,8 +159,10 @@ def run_nz(case):
 
     B, N, kind, autos = case["B"], case["N"], case["kind"], case["autos"]
     cross = make_cf(B, N, False, ["dr", "rr"], case["content"], kind)
-    ref_cf = make_cf(B, N, True, ["dr", "rr"], "pos", kind, salt=1) if autos in ("ref", "both") else None
-    unk_cf = make_cf(B, N, True, ["dr"], "pos", kind, salt=2) if autos in ("unk", "both") else None
+    signs = case.get("signs", "++")
+    cont = {"+": "pos", "-": "negamp"}
+    ref_cf = make_cf(B, N, True, ["dr", "rr"], cont[signs[0]], kind, salt=1) if autos in ("ref", "both") else None
+    unk_cf = make_cf(B, N, True, ["dr"], cont[signs[1]], kind, salt=2) if autos in ("unk", "both") else None
     v = []
     try:
         rd = yaw.RedshiftData.from_corrfuncs(cross, ref_cf, unk_cf)
@@ -178,9 +182,9 @@ def run_nz(case):
         ed = sp_d / np.sqrt(dz**2 * ss_d * pp_d)
         es = sp_s / np.sqrt(dz[None, :] ** 2 * ss_s * pp_s)
     if not ref.close(rd.data, ed, rtol=1e-11):
-        v.append(viol(f"C04/nz/data/{autos}", f"n(z) = {rd.data.tolist()} but w_sp/sqrt(dz^2 w_ss w_pp) = {ed.tolist()}"))
+        v.append(viol(f"C04/nz/data/{autos}/{signs}", f"n(z) = {rd.data.tolist()} but w_sp/sqrt(dz^2 w_ss w_pp) = {ed.tolist()}"))
     if not ref.close(rd.samples, es, rtol=1e-11):
-        v.append(viol(f"C04/nz/samples/{autos}", "n(z) samples are not computed like the value"))
+        v.append(viol(f"C04/nz/samples/{autos}/{signs}", "n(z) samples are not computed like the value"))
     # normalisation of the estimate
     if np.isfinite(rd.data).any():
         try:
